@@ -374,7 +374,7 @@ type caseID struct {
 	Field   string   `json:"field"`
 	Variant *variant `json:"variant,omitempty"`
 	// chains (subcheck "chain"): the template sequence of every block up to the failing one, and the variant
-	Chain        [][]string    `json:"chain,omitempty"`
+	Chain        [][]string    `json:"chain_blocks,omitempty"`
 	ChainVariant *chainVariant `json:"chain_variant,omitempty"`
 	Block        string        `json:"which_block"` // "enumerated" (template order) | "proposed" (what the pool produced)
 	RefValue     string        `json:"reference_value"`
